@@ -5,6 +5,14 @@ fn render(source: &str) -> Result<String, minijinja::Error> {
     Environment::new().render_str(source, context! {})
 }
 
+fn eval_err(source: &str) -> ErrorKind {
+    let env = Environment::new();
+    match env.compile_expression(source) {
+        Ok(expr) => expr.eval(context! {}).unwrap_err().kind(),
+        Err(err) => err.kind(),
+    }
+}
+
 #[test]
 fn test_loop_cycle_without_arguments() {
     let err = render("{% for x in [1, 2] %}{{ loop.cycle() }}{% endfor %}").unwrap_err();
@@ -13,4 +21,26 @@ fn test_loop_cycle_without_arguments() {
         render("{% for x in [1, 2, 3] %}{{ loop.cycle('a', 'b') }}{% endfor %}").unwrap(),
         "aba"
     );
+}
+
+#[test]
+fn test_range_extremes() {
+    assert_eq!(
+        render("{{ range(9223372036854775807, -9223372036854775808, -9223372036854775807)|list }}")
+            .unwrap(),
+        "[9223372036854775807, 0, -9223372036854775807]"
+    );
+    assert_eq!(
+        render("{{ range(10, 0, -9223372036854775808)|list }}").unwrap(),
+        "[10]"
+    );
+    assert_eq!(
+        render("{{ range(0, -9223372036854775808, -9223372036854775807)|list }}").unwrap(),
+        "[0, -9223372036854775807]"
+    );
+    assert_eq!(
+        eval_err("range(9223372036854775807, -9223372036854775808, -1)"),
+        ErrorKind::InvalidOperation
+    );
+    assert_eq!(render("{{ range(5, 0, -2)|list }}").unwrap(), "[5, 3, 1]");
 }
